@@ -1680,7 +1680,7 @@ Qed.
 (** ** C04: a loaded font is a valid font *)
 
 Section Closed.
-Hypothesis CL : sig_closed S.
+Hypothesis CL : sig_closed0 S.
 
 Lemma bare_guides_ok : forall gs : list (T_gbody S * option str),
   (forall g, In g gs -> forall id, snd g = Some id -> wf_key S id) ->
@@ -1748,7 +1748,7 @@ Qed.
 
 Lemma load_layer_props : forall (t : tree) e (l : lay),
   load_layer S t e = Ok l ->
-  l_name l = fst e /\ l_dir l = snd e /\ layer_ok S l.
+  l_name l = fst e /\ l_dir l = snd e /\ (Forall (glyph_entry_ok S) (l_glyphs l) -> layer_ok S l).
 Proof.
   intros t e l H. unfold load_layer in H.
   destruct (alookup (snd e) (t_dirs S t)) as [d|] eqn:Ed; [|discriminate].
@@ -1756,7 +1756,7 @@ Proof.
   destruct (dec (P_contents S) cc) as [cl|] eqn:Ecl; [|discriminate].
   destruct (nodupb (map (fun e => lower S (snd e)) cl)) eqn:End; cbn [negb] in H; [|discriminate]. apply nodupb_iff in End.
   bind_inv H. inversion H; subst l; clear H. simpl. split; [reflexivity|]. split; [reflexivity|].
-  apply mapM_Forall2 in E.
+  intros HGL. apply mapM_Forall2 in E.
   assert (Hfst : map fst a = cl).
   { clear -E. induction E as [|x y l r Hxy F IH]; [reflexivity|]. simpl. rewrite IH. f_equal.
     unfold load_glyph in Hxy. destruct (alookup (snd x) (ld_glifs S d)) as [gc|]; [|discriminate].
@@ -1776,18 +1776,13 @@ Proof.
   { replace (map (fun e0 : str * str * T_glyph S => lower S (snd (fst e0))) a)
       with (map (fun e0 : str * str => lower S (snd e0)) (map fst a)) by (rewrite map_map; reflexivity).
     rewrite Hfst. exact End. }
-  apply Forall_forall. intros g Hg. apply Forall2_flip in E.
-  destruct (Forall2_in_l _ _ _ _ E Hg) as [x [_ Hx]]. cbv beta in Hx. unfold load_glyph in Hx.
-  destruct (alookup (snd x) (ld_glifs S d)) as [gc|]; [|discriminate].
-  destruct (dec (P_glif S) gc) as [g0|] eqn:Eg; inversion Hx; subst g. split; simpl.
-  - apply (wf_set_name S CL). apply (cl_glif S CL _ _ Eg).
-  - apply (name_of_set S OK).
+  exact HGL.
 Qed.
 
 Lemma load_layers_props : forall (t : tree) ls,
-  load_layers S t 3 = Ok ls -> layers_ok S ls.
+  load_layers S t 3 = Ok ls -> Forall (fun l : lay => Forall (glyph_entry_ok S) (l_glyphs l)) ls -> layers_ok S ls.
 Proof.
-  intros t ls H. unfold load_layers in H.
+  intros t ls H HGL. unfold load_layers in H.
   destruct (t_lcontents S t) as [lcc|] eqn:E1; [|discriminate].
   destruct (dec (P_lc S) lcc) as [lc|] eqn:E2; [|discriminate]. cbn [bind] in H.
   destruct (lc_precheck S [] [] lc) eqn:Epre; [discriminate|].
@@ -1795,7 +1790,8 @@ Proof.
   destruct (mapM (load_layer S t) lc) as [ls0| |] eqn:Em; simpl in H; try discriminate.
   destruct (find_idx (is_default_dir S) ls0) as [i|] eqn:Ei; [|discriminate]. inversion H; subst ls; clear H.
   apply mapM_Forall2 in Em.
-  assert (Hall : Forall2 (fun e (l : lay) => l_name l = fst e /\ l_dir l = snd e /\ layer_ok S l) lc ls0).
+  assert (Hall : Forall2 (fun e (l : lay) => l_name l = fst e /\ l_dir l = snd e /\
+                                              (Forall (glyph_entry_ok S) (l_glyphs l) -> layer_ok S l)) lc ls0).
   { eapply Forall2_impl_in; [|exact Em]. intros e l _ _ He. cbv beta in He. apply (load_layer_props t e l He). }
   assert (Hdirs : map l_dir ls0 = map snd lc).
   { apply Forall2_map_fst_eq. eapply Forall2_impl_in; [|exact Hall]. intros a b _ _ (_ & H & _). exact H. }
@@ -1807,19 +1803,20 @@ Proof.
   assert (Hnames : map l_name ls0 = map fst lc).
   { apply Forall2_map_fst_eq. eapply Forall2_impl_in; [|exact Hall]. intros a b _ _ (H & _). exact H. }
   destruct (find_idx_nth _ _ _ Ei) as [d [Hd Hpd]].
-  unfold move_to_front. rewrite Hd.
+  unfold move_to_front. rewrite Hd. unfold move_to_front in HGL. rewrite Hd in HGL.
   destruct (NoDup_remove_nth (fun l : lay => lower S (l_dir l)) i ls0 d NDl Hd) as [ND' Hothers].
   assert (Hdg : l_dir d = GLYPHS) by (apply list_eqb_N_eq; exact Hpd).
-  assert (Hok0 : Forall (layer_ok S) ls0).
-  { apply Forall_forall. intros l Hl. apply Forall2_flip in Hall.
-    destruct (Forall2_in_l _ _ _ _ Hall Hl) as [e [_ (_ & _ & H)]]. exact H. }
   assert (Hin : forall x, In x (d :: remove_nth i ls0) -> In x ls0).
   { intros x [<-|Hx]; [eapply nth_error_In; eauto|eapply in_remove_nth; eauto]. }
+  assert (Hok0 : Forall (layer_ok S) (d :: remove_nth i ls0)).
+  { apply Forall_forall. intros l Hl. pose proof (Hin l Hl) as Hl0. apply Forall2_flip in Hall.
+    destruct (Forall2_in_l _ _ _ _ Hall Hl0) as [e [_ (_ & _ & H)]]. apply H.
+    rewrite Forall_forall in HGL. apply HGL. exact Hl. }
   assert (NDn0 : NoDup (map l_name ls0)) by (rewrite Hnames; exact NDn).
   destruct (NoDup_remove_nth l_name i ls0 d NDn0 Hd) as [NDn' _].
   split; [split; [exact Hdg|]|split; [exact ND'|split; [|split; [|split; [exact NDn'|]]]]].
   - apply Forall_forall. intros x Hx. rewrite <- Hdg. intros E. apply (Hothers x Hx). rewrite E. reflexivity.
-  - apply Forall_forall. intros x Hx. rewrite Forall_forall in Hok0. apply Hok0. apply Hin. exact Hx.
+  - exact Hok0.
   - apply (lc_wf S OK). unfold lc_of. rewrite Forall_map. apply Forall_forall. intros x Hx.
     apply (cl_lc S CL) in E2. apply (lc_wf S OK) in E2. rewrite <- Hlcof in E2. unfold lc_of in E2.
     rewrite Forall_map in E2. rewrite Forall_forall in E2. apply E2. apply Hin. exact Hx.
@@ -1828,11 +1825,12 @@ Proof.
     rewrite A, B. apply (Hres e He).
 Qed.
 
-Theorem load_yields_valid : forall (t : tree) (f : font) mc m,
+Theorem load_yields_valid0 : forall (t : tree) (f : font) mc m,
   load S t = Ok f -> t_meta S t = Some mc -> dec (P_meta S) mc = Some m -> m_version m = 3 ->
+  Forall (fun l : lay => Forall (glyph_entry_ok S) (l_glyphs l)) (f_layers S f) ->
   font_valid S f.
 Proof.
-  intros t f mc m H Hm1 Hm2 Hv.
+  intros t f mc m H Hm1 Hm2 Hv HGL.
   destruct (load_elim t f H) as (mc' & m' & olib & il & og & ok & ls & E1 & E2 & E3 & E4 & E5 & E6 & E7 & E8 &
                                  F1 & F2 & F3 & F4 & F5).
   rewrite Hm1 in E1. inversion E1; subst mc'. rewrite Hm2 in E2. inversion E2; subst m'.
@@ -1853,7 +1851,7 @@ Proof.
       destruct (load_object_libs S (snd si) (lib0_of olib)) as [r| |] eqn:Er; simpl in E4; try discriminate.
       inversion E4; subst il. simpl.
       pose proof (cl_info S CL _ _ Es) as Hwsi.
-      destruct (load_object_libs_props _ _ _ Er Hwl0 (info_ids_wf S CL si Hwsi)) as (P1 & P2 & P3 & P4).
+      destruct (load_object_libs_props _ _ _ Er Hwl0 (info_ids_wf S CL c si Es)) as (P1 & P2 & P3 & P4).
       assert (Hstr : stripped S {| i_rest := fst si; i_guides := fst r |} = si).
       { unfold stripped. simpl. rewrite P1. destruct si; reflexivity. }
       split. { rewrite <- Eok. apply (info_ok_stripped S OK). rewrite Hstr, stripped_bare. apply (peq_refl _ (ok_info S OK)). }
@@ -1880,7 +1878,60 @@ Proof.
     - destruct (dec (P_kerning S) c) as [k|] eqn:Ek; [|discriminate]. inversion E7; subst ok. simpl.
       apply (cl_kerning S CL _ _ Ek).
     - inversion E7; subst ok. simpl. apply (kerning_dflt_wf S OK). }
-  eapply load_layers_props; eauto.
+  eapply load_layers_props; eauto. rewrite <- F2. exact HGL.
+Qed.
+
+(** the fixed point for every loaded font whose glyphs are in the glif writer's domain *)
+Theorem fixed_point0 : forall o (t : tree) (f : font) mc m,
+  load S t = Ok f -> t_meta S t = Some mc -> dec (P_meta S) mc = Some m -> m_version m = 3 ->
+  Forall (fun l : lay => Forall (glyph_entry_ok S) (l_glyphs l)) (f_layers S f) ->
+  exists t', save S o f = Ok t' /\ exists f', load S t' = Ok f' /\ font_equiv S f f'.
+Proof.
+  intros o t f mc m H Hm1 Hm2 Hv HGL.
+  destruct (save_load_roundtrip o f (load_yields_valid0 t f mc m H Hm1 Hm2 Hv HGL)) as (t' & H1 & _ & H2). eauto.
+Qed.
+
+End Closed.
+
+(** ** with a closed glif reader the glyph condition holds for every loaded font *)
+Section ClosedGlif.
+Hypothesis CL : sig_closed S.
+
+Lemma load_glyph_entry_ok : forall (d : ldir S) ce e, load_glyph S d ce = Ok e -> glyph_entry_ok S e.
+Proof.
+  intros d ce e H. unfold load_glyph in H.
+  destruct (alookup (snd ce) (ld_glifs S d)) as [c|]; [|discriminate].
+  destruct (dec (P_glif S) c) as [g|] eqn:Eg; [|discriminate]. inversion H; subst e. split; simpl.
+  - apply (wf_set_name S CL). apply (cl_glif S CL _ _ Eg).
+  - apply (name_of_set S OK).
+Qed.
+
+Lemma loaded_glyph_entries_ok : forall (t : tree) (f : font),
+  load S t = Ok f -> Forall (fun l : lay => Forall (glyph_entry_ok S) (l_glyphs l)) (f_layers S f).
+Proof.
+  intros t f H.
+  destruct (load_elim t f H) as (mc & m & olib & il & og & ok & ls & _ & _ & _ & _ & _ & _ & _ & E8 & _ & F2 & _).
+  rewrite F2. unfold load_layers in E8. bind_inv E8.
+  destruct (lc_precheck S [] [] a); [discriminate|]. bind_inv E8.
+  destruct (find_idx (is_default_dir S) a0) as [i|]; [|discriminate]. inversion E8; subst ls.
+  apply Forall_forall. intros l Hl. apply in_move_to_front in Hl.
+  apply mapM_Forall2 in E0. apply Forall2_flip in E0.
+  destruct (Forall2_in_l _ _ _ _ E0 Hl) as [e [_ He]]. cbv beta in He. unfold load_layer in He.
+  destruct (alookup (snd e) (t_dirs S t)) as [d|]; [|discriminate].
+  destruct (ld_contents S d) as [cc|]; [|discriminate].
+  destruct (dec (P_contents S) cc) as [cl|]; [|discriminate].
+  destruct (negb (nodupb (map (fun e0 : str * str => lower S (snd e0)) cl))); [discriminate|].
+  bind_inv He. inversion He; subst l. simpl. apply mapM_Forall2 in E1.
+  apply Forall_forall. intros x Hx. apply Forall2_flip in E1.
+  destruct (Forall2_in_l _ _ _ _ E1 Hx) as [ce [_ Hce]]. eapply load_glyph_entry_ok; eauto.
+Qed.
+
+Theorem load_yields_valid : forall (t : tree) (f : font) mc m,
+  load S t = Ok f -> t_meta S t = Some mc -> dec (P_meta S) mc = Some m -> m_version m = 3 ->
+  font_valid S f.
+Proof.
+  intros t f mc m H Hm1 Hm2 Hv.
+  exact (load_yields_valid0 (cl_base S CL) t f mc m H Hm1 Hm2 Hv (loaded_glyph_entries_ok t f H)).
 Qed.
 
 (** C04 at full strength: whatever format-3 tree norad loads, the loaded font is saved and loaded
@@ -1893,6 +1944,6 @@ Proof.
   destruct (save_load_roundtrip o f (load_yields_valid t f mc m H Hm1 Hm2 Hv)) as (t' & H1 & _ & H2). eauto.
 Qed.
 
-End Closed.
+End ClosedGlif.
 
 End Proofs.
